@@ -922,6 +922,10 @@ class Tr:
             return cb, f"(if {c} then {a} else {e})", aty
         if isinstance(n, ast.BinOp):
             if isinstance(n.op, ast.Mod) and isinstance(n.left, ast.Constant) and isinstance(n.left.value, str):
+                import re as _re
+                specs = _re.findall(r"%(?!%)(.)", n.left.value.replace("%%", ""))
+                if specs != ["d"] or _re.search(r"%(?![d%])", n.left.value):
+                    bad(n, "a %-format other than one %d")       # (the number and kind of conversions decide whether it raises)
                 rb, r, rt = self.E(n.right, env)
                 if rt != "int":
                     bad(n, "format argument")
@@ -1469,6 +1473,16 @@ class Tr:
             if isinstance(v, ast.Call) and isinstance(v.func, ast.Attribute):
                 f = v.func
                 if isinstance(f.value, ast.Name) and f.value.id == "log":
+                    # the call is dropped, but what Python evaluates to make it must exist and not raise: the method is one
+                    # of the level methods, the format a constant, every argument an expression the translator accepts
+                    # (unknown or possibly unbound names are refused by E) whose evaluation cannot raise
+                    if f.attr not in ("debug", "info", "warning", "error", "critical") or v.keywords \
+                            or not v.args or not (isinstance(v.args[0], ast.Constant) and isinstance(v.args[0].value, str)):
+                        bad(s, "log call form")
+                    for a_ in v.args[1:]:
+                        ab_, _t, _ty = self.E(a_, env)
+                        if ab_:
+                            bad(s, "log argument that can raise")
                     if REBOUND_LOG:
                         bad(s, "a log call, but `log` is not only the module's logger (modules: %s)" % sorted(REBOUND_LOG))
                     return cont(env)
@@ -1732,6 +1746,12 @@ class Tr:
             exc = s.exc
             if not (isinstance(exc, ast.Call) and isinstance(exc.func, ast.Name) and exc.func.id in EXN):
                 bad(s, "raise form")
+            if exc.keywords or any(isinstance(a, ast.Starred) for a in exc.args):
+                bad(s, "keyword or starred arguments of an exception")
+            if s.cause is not None and not (isinstance(s.cause, ast.Constant) and s.cause.value is None):
+                # `raise E(...) from <expr>` evaluates <expr>: only None is accepted here (the handlers' `from err` are
+                # checked where handlers are translated)
+                bad(s, "raise ... from an expression")
             bs = []
             for a in exc.args:
                 if isinstance(a, ast.Name) and env.get(a.id) == "str":
@@ -2014,6 +2034,9 @@ class Tr:
             if len(h.body[-1].exc.args) > 1 or any(not isinstance(a, (ast.Name, ast.Constant)) for a in h.body[-1].exc.args) \
                     or h.body[-1].exc.keywords:
                 bad(s, "handler raise arguments")
+            hc = h.body[-1].cause
+            if hc is not None and not ((isinstance(hc, ast.Name) and hc.id == h.name) or (isinstance(hc, ast.Constant) and hc.value is None)):
+                bad(s, "handler raise ... from an expression")
             to = h.body[-1].exc.func.id
             if not EXC_BASES:
                 bad(s, "handler: the class hierarchy of exceptions.py could not be read")
@@ -2172,6 +2195,20 @@ class Tr:
         for p in ast.walk(fn.fd):
             for c in ast.iter_child_nodes(p):
                 parents[c] = p
+        for x in ast.walk(fn.fd):
+            # ... and the object must be born in this function: every binding of nm is a display, a comprehension, the
+            # result of a constructor / concatenation / slice -- never another name, an attribute or an element
+            if isinstance(x, ast.Name) and x.id == nm and not isinstance(x.ctx, ast.Load):
+                p = parents.get(x)
+                v = p.value if isinstance(p, (ast.Assign, ast.AnnAssign)) and (getattr(p, "targets", None) == [x] or getattr(p, "target", None) is x) else None
+                if isinstance(p, ast.AugAssign) and p.target is x:
+                    continue
+                fresh = isinstance(v, (ast.List, ast.ListComp, ast.Constant)) or \
+                    (isinstance(v, ast.Call) and isinstance(v.func, ast.Name) and v.func.id in ({"bytearray", "list", "bytes", "sorted"} | set(fn.bytearray_funs))) or \
+                    (isinstance(v, ast.BinOp) and isinstance(v.op, ast.Add)) or \
+                    (isinstance(v, ast.Subscript) and isinstance(v.slice, ast.Slice))
+                if not fresh:
+                    bad(node, f"{nm} is changed in place but is not known to be a fresh object (line {x.lineno})")
         PURE = {"bytes", "bytearray", "len", "list", "tuple", "sorted", "enumerate", "bool", "sum", "min", "max", "any", "all"}
         for x in ast.walk(fn.fd):
             if not (isinstance(x, ast.Name) and x.id == nm and isinstance(x.ctx, ast.Load)):
@@ -2574,6 +2611,45 @@ def desugar(tree):
     return tree
 
 
+def check_buffer_ops(fd):
+    """Decoder methods receive the caller's buffer and memoryview slices of it under the annotation `bytes`, and the
+    translation gives them the one type of byte strings.  What a memoryview does NOT share with bytes -- methods
+    (startswith, decode, hex ...), `+`, `*`, ord(), membership tests -- is therefore refused on every name that is ever bound
+    to a parameter annotated bytes, to a slice / alias / memoryview of such a name (flow-insensitive: also after it was
+    rebound to a copy)."""
+    buf = {a.arg for a in fd.args.args[1:] if a.annotation is not None
+           and ast.unparse(a.annotation).replace(" ", "") in ("bytes", "memoryview", "bytes|memoryview", "bytes|bytearray", "bytes|bytearray|memoryview")}
+    changed = True
+    while changed:
+        changed = False
+        for x in ast.walk(fd):
+            if isinstance(x, ast.Assign) and len(x.targets) == 1 and isinstance(x.targets[0], ast.Name):
+                v = x.value
+                src = None
+                if isinstance(v, ast.Name):
+                    src = v.id
+                elif isinstance(v, ast.Subscript) and isinstance(v.slice, ast.Slice) and isinstance(v.value, ast.Name):
+                    src = v.value.id
+                elif isinstance(v, ast.Call) and isinstance(v.func, ast.Name) and v.func.id == "memoryview" and v.args \
+                        and isinstance(v.args[0], ast.Name):
+                    src = v.args[0].id
+                if src in buf and x.targets[0].id not in buf:
+                    buf.add(x.targets[0].id)
+                    changed = True
+    for x in ast.walk(fd):
+        if isinstance(x, ast.Attribute) and isinstance(x.value, ast.Name) and x.value.id in buf:
+            raise Unsupported(f"line {x.lineno}: attribute .{x.attr} of {x.value.id}, which may be a memoryview of the caller's buffer")
+        if isinstance(x, ast.BinOp) and isinstance(x.op, (ast.Add, ast.Mult, ast.Mod)) \
+                and any(isinstance(o, ast.Name) and o.id in buf for o in (x.left, x.right)):
+            raise Unsupported(f"line {x.lineno}: arithmetic on a name that may be a memoryview of the caller's buffer")
+        if isinstance(x, ast.Call) and isinstance(x.func, ast.Name) and x.func.id in ("ord", "str", "repr", "hash") \
+                and any(isinstance(a, ast.Name) and a.id in buf for a in x.args):
+            raise Unsupported(f"line {x.lineno}: {x.func.id}() of a name that may be a memoryview of the caller's buffer")
+        if isinstance(x, ast.Compare) and any(isinstance(o, (ast.In, ast.NotIn)) for o in x.ops) \
+                and any(isinstance(o, ast.Name) and o.id in buf for o in [x.left] + x.comparators):
+            raise Unsupported(f"line {x.lineno}: membership test on a name that may be a memoryview of the caller's buffer")
+
+
 def rename_reserved(fd):
     """local names that are Coq keywords get a trailing underscore"""
     names = {x.id for x in ast.walk(fd) if isinstance(x, ast.Name)} | {a.arg for a in fd.args.args}
@@ -2721,6 +2797,8 @@ def translate_function(fd, cls, cname, rw, consts, methods, funs, classes=None, 
     if fd.args.vararg or fd.args.kwarg or fd.args.kwonlyargs:
         raise Unsupported("parameter form")
     rename_reserved(fd)
+    if cls == "Decoder":
+        check_buffer_ops(fd)
     if cls:
         inline_attribute_names(fd, cls)
     if helper is not None and helper.meth is not None:
